@@ -285,7 +285,7 @@ Qed.
 
 (* ---------------- the box the fit functions hand to the optimiser implies box_spec *)
 Section BoxSound.
-(* utilities/base_model.py: fix_identical_bnds, not modelled: only "a non-degenerate row is left alone" is used *)
+(* first for ANY row fix-up that leaves non-degenerate rows alone; instantiated with fix_identical_bnds as coded below *)
 Variable fix_identical : R * R -> R * R.
 Hypothesis fix_identical_nondegenerate : forall r : R * R, fst r < snd r -> fix_identical r = r.
 Variables Tlo Thi : R.
@@ -413,6 +413,53 @@ Proof.
   apply in_box_cons in Hin. destruct Hin as [I0 _]. cbn. lra.
 Qed.
 End BoxSound.
+
+(* ---------------- the same with fix_identical_bnds AS CODED (no contract left): every start vector, every row pattern *)
+Lemma fix_identical_row_nondegenerate : forall r : R * R, fst r < snd r -> fix_identical_row N r = r.
+Proof.
+  intros [a b] H. unfold fix_identical_row. cbn [fst snd] in *. change (@n_eqb N a b) with (Reqb a b).
+  unfold Reqb. destruct (Req_EM_T a b); [lra | reflexivity].
+Qed.
+
+(* the lower end of every slope / smoothing row is >= 0, also when the start vector has zero slopes, zero k, equal
+   balance points or values on the limits (degenerate rows are widened symmetrically first and clamped afterwards) *)
+Lemma slope_rows_nonneg_full_smooth : forall nb b0 B,
+  update_bnds_full_smooth N (fix_identical_row N) nb b0 = Some B ->
+  exists r0 r1 r2 r3 r4 r5 r6, B = [r0; r1; r2; r3; r4; r5; r6] /\ 0 <= fst r1 /\ 0 <= fst r2 /\ 0 <= fst r4 /\ 0 <= fst r5.
+Proof.
+  intros nb b0 B H. unfold update_bnds_full_smooth in H.
+  destruct nb as [|n0 [|n1 [|n2 [|n3 [|n4 [|n5 [|n6 [|]]]]]]]]; try discriminate.
+  destruct b0 as [|c0 [|c1 [|c2 [|c3 [|c4 [|c5 [|c6 [|]]]]]]]]; try discriminate.
+  injection H as H. subst B. do 7 eexists. split; [reflexivity|].
+  repeat split; apply clip_lower_0_nonneg.
+Qed.
+
+Lemma slope_rows_nonneg_full : forall nb b0 B,
+  update_bnds_full N (fix_identical_row N) nb b0 = Some B ->
+  exists r0 r1 r2 r3 r4, B = [r0; r1; r2; r3; r4] /\ 0 <= fst r1 /\ 0 <= fst r3.
+Proof.
+  intros nb b0 B H. unfold update_bnds_full in H.
+  destruct nb as [|n0 [|n1 [|n2 [|n3 [|n4 [|]]]]]]; try discriminate.
+  destruct b0 as [|c0 [|c1 [|c2 [|c3 [|c4 [|]]]]]]; try discriminate.
+  injection H as H. subst B. do 5 eexists. split; [reflexivity|].
+  repeat split; apply clip_lower_0_nonneg.
+Qed.
+
+Lemma k_row_nonneg_c_smooth : forall nb b0 B,
+  update_bnds_c_smooth N (fix_identical_row N) nb b0 = Some B ->
+  exists r0 r1 r2 r3, B = [r0; r1; r2; r3] /\ 0 <= fst r2.
+Proof.
+  intros nb b0 B H. unfold update_bnds_c_smooth in H.
+  destruct nb as [|n0 [|n1 [|n2 [|n3 [|]]]]]; try discriminate.
+  destruct b0 as [|c0 [|c1 [|c2 [|c3 [|]]]]]; try discriminate.
+  injection H as H. subst B. do 4 eexists. split; [reflexivity|]. apply clip_lower_0_nonneg.
+Qed.
+
+Definition box_sound_full_smooth_coded := box_sound_full_smooth (fix_identical_row N) fix_identical_row_nondegenerate.
+Definition box_sound_full_coded := box_sound_full (fix_identical_row N) fix_identical_row_nondegenerate.
+Definition box_sound_c_smooth_coded := box_sound_c_smooth (fix_identical_row N) fix_identical_row_nondegenerate.
+Definition box_sound_c_coded := box_sound_c (fix_identical_row N) fix_identical_row_nondegenerate.
+Definition box_sound_tidd_coded := box_sound_tidd (fix_identical_row N) fix_identical_row_nondegenerate.
 
 
 (* ---------------- the pinned one-sided balance point (fit_c_hdd_tidd gives the optimiser the degenerate bounds
